@@ -21,7 +21,7 @@ TRUSTED = ['model: coq/Macro/MxModel.v (transcription of macroprocessor.cpp 88-1
            'std::sort over the argument definitions is modelled as a stable sort (exact for libstdc++ up to 16 definitions; generators stay below)']
 ASSUMPTIONS = ['macro values are NUL-free byte strings (a C string cannot carry NUL); numbers are integers',
                'Function-valued commands/arguments, the resolvedMacros cache of remote execution, and the config-writer text of arrays/dictionaries used inside a string are not modelled',
-               'set_if strings that parse as non-integer floating point numbers are not generated',
+               'set_if strings are modelled for plain decimal notation (optional sign, digits, optional fraction); exponent notation, inf and nan are neither modelled nor generated',
                'the timeout kill is exercised (1 s timeout against a sleeping plugin => UNKNOWN) but not modelled']
 
 RECPLUG = core.B + '/harness/recplug'
@@ -208,7 +208,7 @@ def template(rnd, names, allow=('str', 'str', 'str', 'arr', 'num', 'bool', 'empt
 def set_if_value(rnd, names):
     r = rnd.random()
     if r < 0.25:
-        return rnd.choice(('true', 'false', '1', '0', '2', '-1', '', '00', '+1'))
+        return rnd.choice(('true', 'false', '1', '0', '2', '-1', '', '00', '+1', '1.', '.9', '0.5', '-0.0', '1.5', '-', '.'))
     if r < 0.75:
         kind, nm = pick_macro(rnd, names, ('bool', 'bool', 'num', 'str', 'arr', 'empty', 'missing', 'missing'))
         return '$%s$' % nm
